@@ -44,6 +44,31 @@ def gen_matrix(rng, kind, n, dt, unit=1.0):
                     eigs.append({"re": float(mags[i] * S.pick(rng, [-1.0, 1.0])), "im": 0.0})
                 i += 1
         return {"k": "Dense", "shape": [n, n], "dt": dt, "seed": S.seed(rng), "gen": "general", "eigs": eigs, "vcond": 2.0}
+    if kind in ("general-lower", "general-upper", "general-absorbing"):
+        # plain dense matrices with an exact zero pattern: eigenvectors with exactly zero coordinates
+        if cplx:
+            eigs = [{"re": float((m * np.exp(1j * a)).real), "im": float((m * np.exp(1j * a)).imag)} for m, a in zip(mags, rng.uniform(-3, 3, size=n))]
+        else:
+            eigs = [{"re": float(m * s), "im": 0.0} for m, s in zip(mags, rng.choice([-1.0, 1.0], size=n))]
+        return {"k": S.pick(rng, ["Dense", "Dense", "Generic"]), "shape": [n, n], "dt": dt, "seed": S.seed(rng), "gen": "zeros",
+                "pattern": kind.split("-")[1], "eigs": eigs, "vcond": 2.0}
+    if kind == "general-blockdiag":
+        # a block-diagonal operator of non-symmetric blocks (no structural eig rule: it goes through the general algorithms)
+        sizes, left = [], n
+        while left > 0:
+            b = int(rng.integers(1, min(left, 4) + 1))
+            sizes.append(b)
+            left -= b
+        blocks, off = [], 0
+        for b in sizes:
+            sub = mags[off:off + b]
+            off += b
+            if cplx:
+                eigs = [{"re": float((m * np.exp(1j * a)).real), "im": float((m * np.exp(1j * a)).imag)} for m, a in zip(sub, rng.uniform(-3, 3, size=b))]
+            else:
+                eigs = [{"re": float(m * s), "im": 0.0} for m, s in zip(sub, rng.choice([-1.0, 1.0], size=b))]
+            blocks.append({"k": "Dense", "shape": [b, b], "dt": dt, "seed": S.seed(rng), "gen": "general", "eigs": eigs, "vcond": 2.0})
+        return {"k": "BlockDiag", "via": "ctor", "mult": [1] * len(blocks), "args": blocks}
     if kind == "Diagonal":
         if cplx:
             vals = [{"re": float((m * np.exp(1j * a)).real), "im": float((m * np.exp(1j * a)).imag)}
@@ -67,16 +92,16 @@ def gen(tier, rng, shard, nshards):
     for i in range(SIZES[tier]):
         dt = S.pick(rng, ["f8", "f8", "c16", "c16"])
         kind = S.pick(rng, ["herm-definite", "herm-indefinite", "herm-indefinite", "general", "general", "Diagonal", "Triangular",
-                            "Triangular", "Identity"])
+                            "Triangular", "Identity", "general-lower", "general-upper", "general-absorbing", "general-blockdiag"])
         n = int(rng.integers(1, 9)) if rng.random() < 0.75 else int(S.pick(rng, [12, 20, 30] + ([50, 80] if tier == "thorough" else [])))
-        unit = float(S.pick(rng, [1.0, 1.0, 1.0, 1e-8, 1e8])) if kind in ("herm-definite", "herm-indefinite", "general", "Diagonal") else 1.0
+        unit = float(S.pick(rng, [1.0, 1.0, 1.0, 1e-8, 1e8])) if kind in ("herm-definite", "herm-indefinite", "general", "Diagonal", "general-blockdiag") else 1.0
         node = gen_matrix(rng, kind, n, dt, unit)
         k = int(rng.integers(1, n + 1)) if rng.random() < 0.8 else n
         which = S.pick(rng, ["LM", "SM"])
         herm = kind.startswith("herm")
         if herm:
             alg = S.pick(rng, [OMIT, "Auto", "Eigh", "Eigh", "Eig", "Lanczos", "Arnoldi", "PowerIteration"])
-        elif kind == "general":
+        elif kind.startswith("general"):
             alg = S.pick(rng, [OMIT, "Auto", "Eig", "Eig", "Arnoldi", "Arnoldi", "PowerIteration"])
         else:
             alg = S.pick(rng, [OMIT, "Auto", "Eig", "Arnoldi"])
@@ -145,7 +170,7 @@ def run_case(ctx, case):
     if case["fn"] == "eigmin":
         k, which = 1, "SM"
     power = case["alg"] == "PowerIteration" or (case["alg"] in (OMIT, "Auto") and k == 1 and which == "LM" and
-                                               case["kind"] in ("herm-definite", "herm-indefinite", "general"))
+                                               (case["kind"] in ("herm-definite", "herm-indefinite") or case["kind"].startswith("general")))
     tol = (1e-7 if krylov else 1e-10) * normA * n
     site = case["kind"]
     preds = {"alg": case["alg"], "which": which}
